@@ -50,9 +50,20 @@ def build(extras=False, release=False):
 def run_lines(cmd, lines, extras=False, release=False, args=(), timeout=600):
     """send lines to `verif-native <cmd>`; returns reply lines (same count) or raises Inconclusive."""
     b = build(extras, release)
-    p = subprocess.run([b, cmd] + list(args), input="\n".join(lines) + "\n", capture_output=True, text=True, timeout=timeout, errors="replace")
-    out = p.stdout.split("\n")
-    if out and out[-1] == "": out.pop()
-    if p.returncode != 0 or len(out) != len(lines):
-        raise Inconclusive(f"verif-native {cmd}: rc={p.returncode}, {len(out)} replies for {len(lines)} requests; stderr: {p.stderr[-1500:]}")
-    return out
+
+    def one(chunk):
+        p = subprocess.run([b, cmd] + list(args), input="\n".join(chunk) + "\n", capture_output=True, text=True, timeout=timeout, errors="replace")
+        out = p.stdout.split("\n")
+        if out and out[-1] == "": out.pop()
+        if p.returncode != 0 or len(out) != len(chunk):
+            raise Inconclusive(f"verif-native {cmd}: rc={p.returncode}, {len(out)} replies for {len(chunk)} requests; stderr: {p.stderr[-1500:]}")
+        return out
+
+    if len(lines) < 4000: return one(lines)
+    # many requests (thorough tiers): contiguous chunks, one process each (requests are independent; order is kept)
+    from concurrent.futures import ThreadPoolExecutor
+    k = min(NCPU, 16); n = (len(lines) + k - 1) // k
+    chunks = [lines[i:i + n] for i in range(0, len(lines), n)]
+    with ThreadPoolExecutor(len(chunks)) as ex:
+        outs = list(ex.map(one, chunks))
+    return [r for o in outs for r in o]
